@@ -68,6 +68,7 @@ def noise_ready_oracle(ix: Index, scn: dict) -> list[Violation]:
 
 
 def helper_case(rng: random.Random, cuts: dict, base: dict | None = None) -> dict:
+    tiny = cuts.get("mode") == "sizes" and min(cuts.get("sizes", [99])) < 16
     if base is None:
         psk = base64.b64encode(bytes(rng.getrandbits(8) for _ in range(32))).decode()
         name = pick(rng, NAMES)
@@ -75,7 +76,7 @@ def helper_case(rng: random.Random, cuts: dict, base: dict | None = None) -> dic
         exp = pick(rng, [None, None, name, name, pick(rng, NAMES)])
         msgs = []
         for _ in range(rng.randint(0, 8)):
-            ln = pick(rng, [0, 1, 5, 100, 127, 128, 1000, 16384, 65000])
+            ln = pick(rng, [0, 1, 5, 100, 127, 128, 1000] if tiny else [0, 1, 5, 100, 127, 128, 1000, 16384, 65000])
             msgs.append({"type": pick(rng, [1, 2, 26, 127, 128, 255, 256, 1000, 65535]), "payload_gen": [ln, rng.getrandbits(20)]})
         base = {
             "family": "framing",
@@ -130,7 +131,7 @@ class C03(CheckBase):
             name = pick(rng, NAMES)
             exp = pick(rng, [None, name, name, "other"])
             sizes = [pick(rng, [1, 2, 3, 7, 20, 50, 128, 1000]) for _ in range(rng.randint(1, 5))]
-            msgs = [pick(rng, [["SensorStateResponse", {"key": 2, "state": 1.0}], ["CameraImageResponse", {"key": 1, "data": {"gen": [pick(rng, [10, 1000, 40000]), 5]}, "done": True}], ["SwitchStateResponse", {"key": 1, "state": True}]]) for _ in range(rng.randint(1, 8))]
+            msgs = [pick(rng, [["SensorStateResponse", {"key": 2, "state": 1.0}], ["CameraImageResponse", {"key": 1, "data": {"gen": [pick(rng, [10, 1000, 4000]), 5]}, "done": True}], ["SwitchStateResponse", {"key": 1, "state": True}]]) for _ in range(rng.randint(1, 8))]
             client = {"addresses": ["10.0.0.5"], "keepalive": 60.0, "noise_psk": psk}
             if exp is not None:
                 client["expected_name"] = exp
